@@ -3,6 +3,7 @@
 -/
 import TealerModel.Props.Common
 import TealerModel.Props.Tie
+import TealerModel.Props.TieMatchers
 namespace Tealer.C08
 
 /-- tie to today's source (constants and tables imported from /repo on this run) -/
@@ -54,5 +55,12 @@ theorem C08_backward_sound (g : Graph) (ctx1 : Nat → AddrSet) (lout : List (Na
   Flow.backward_sound addrLaws g ctx1 lout v tr ht hleaf hsol
 
 example : Addr.gamma (addrInter addrUniv ["X"]) "X" := by decide
+
+/-- THE MATCHER IS THE PYTHON'S.  `_get_asserted_txn_gtxn`, translated statement by statement from /repo's Python on this run,
+    computes exactly the model's `addrSingle` on the stack value the Python holds, for every key, block and instruction -/
+theorem C08_tie_matcher (intcs : Option (List Nat)) (ins : List Ins) (key : Key) (n p o : Nat) :
+    addrSingle intcs (constructAst ins) key p =
+      Generated.getAssertedTxnGtxn (TieM.envOf intcs) (TieM.envOf intcs) key (treeOf (constructAst ins) (n + 3) (some (p, o))) :=
+  TieM.addr_tie intcs _ (TieM.arity_constructAst ins) key n p o
 
 end Tealer.C08
